@@ -316,7 +316,7 @@ func Run(peer *Peer, torEvent chan<- TorEvent, torDone <-chan struct{},
 				}
 			} else {
 				bitmap := peer.myBitmap.Copy()
-				bitmap.Extend(num)
+				bitmap.Extend(num - 1)
 				err := write(peer, protocol.Bitfield{bitmap})
 				if err != nil {
 					return err
